@@ -336,6 +336,23 @@ def specIter (s : SpecSess) : List Item → List Item → Out
   | [], acc => .items acc.reverse
   | it :: rest, acc => if tooLarge s it then .err .valueError else specIter s rest (it :: acc)
 
+/-- the specification's verdict on an `add`: wrong schema / missing value / larger than the cache ⇒ refused;
+    an in-memory store that would have to evict ⇒ refused; otherwise accepted -/
+def specAddRefusal (ss : SpecSess) (items : List Item) (it : Item) : Option Err :=
+  let schemaOk := match ss.schema with
+    | some (fs, ix) => fs = it.fs && ix = it.fid.isSome
+    | none => true
+  if !schemaOk || !it.complete || it.bytes > ss.maxBytes then some .valueError
+  else if ss.mem && (items.map (·.bytes)).sum + it.bytes > ss.maxBytes then some .evictionRefused
+  else none
+
+/-- an accepted `add`: the item is appended, it gets the next index, the first one fixes the schema -/
+def specAddSuccess (sp : Spec) (s : SpecSess) (it : Item) : Spec × Out :=
+  let sch := match s.schema with | some x => x | none => (it.fs, it.fid.isSome)
+  let s' := { s with schema := some sch }
+  if s.mem then ({ sp with memItems := sp.memItems ++ [it], sess := some s' }, .idx sp.memItems.length)
+  else (⟨true, sp.fileItems ++ [it], some sch, sp.memItems, some s'⟩, .idx sp.fileItems.length)
+
 def specStep (sp : Spec) (op : Op) : Spec × Out :=
   match op with
   | .create file mbs =>
@@ -358,16 +375,9 @@ def specStep (sp : Spec) (op : Op) : Spec × Out :=
       match op with
       | .add it =>
         if s.mode = .read then (sp, .err .runtimeError) else
-        let schemaOk := match s.schema with
-          | some (fs, ix) => fs = it.fs && ix = it.fid.isSome
-          | none => true
-        if !schemaOk || !it.complete || it.bytes > s.maxBytes then (sp, .err .valueError) else
-        if s.mem && ((sp.items s).map (·.bytes)).sum + it.bytes > s.maxBytes
-        then (sp, .err .evictionRefused) else
-        let sch := match s.schema with | some x => x | none => (it.fs, it.fid.isSome)
-        let s' := { s with schema := some sch }
-        if s.mem then ({ sp with memItems := sp.memItems ++ [it], sess := some s' }, .idx sp.memItems.length)
-        else (⟨true, sp.fileItems ++ [it], some sch, sp.memItems, some s'⟩, .idx sp.fileItems.length)
+        match specAddRefusal s (sp.items s) it with
+        | some e => (sp, .err e)
+        | none => specAddSuccess sp s it
       | .get i => (sp, specGet sp s i)
       | .len => (sp, .len (sp.items s).length)
       | .iter => (sp, specIter s (sp.items s) [])
